@@ -29,6 +29,19 @@ if rnd >= 4:
             "dependence (the same operation applied twice, operands swapped, results re-used as inputs); (iv) precision slips (float32 "
             "intermediate, rounding mode, tolerance applied on the wrong side, integer division of negatives); (v) state that survives "
             "between calls (mutable default arguments, in-place modification of an argument, attributes set lazily).\n")
+if rnd >= 5:
+    emph = ("\n\nThis is a fifth round: four rounds of changes (listed above) have been tried - in the anchored files, in helper modules, "
+            "in the module-level caches of odc/geo/crs.py (do NOT touch those caches again), on degenerate inputs, rare options, argument "
+            "representations (numpy scalars, dtypes, bytearray), in-place modification of arguments and state surviving between calls.  "
+            "Read the property text clause by clause once more and look for what is STILL untouched.  Prefer: (i) the less used public entry "
+            "points that must satisfy the same clause (operator forms vs function forms, accessor methods, aliases, class methods / "
+            "alternative constructors, `__r*__` variants, the Dataset variant next to the DataArray variant, dask next to numpy); "
+            "(ii) clauses that say something must be REJECTED or must raise - make a special case slip through silently; (iii) clauses about "
+            "what must NOT change (input left untouched, CRS / dtype / attrs / order preserved); (iv) combinations of two legal options that "
+            "are each handled correctly alone; (v) values at the exact boundary of a documented tolerance or size limit; (vi) behaviour that "
+            "depends on iteration order of dicts/sets, on hash values or on object identity.\n"
+            "While reading the code: if you notice a place where the UNCHANGED code already seems to violate the property (a latent bug), do "
+            "not use it as your mutation, but describe it at the end of your final answer under 'pre-existing' with a 5-line reproduction.\n")
 avoid = ""
 if known:
     avoid = ("\n\nThe following changes were already tried by someone else — do NOT repeat them or close variants; look in different functions, "
